@@ -256,10 +256,49 @@ def parseExponent (fuel : Nat) (s : Scan) : Res ((List UInt8 × List UInt8) × S
     | .ok (ex, s3) => .ok (([], ex), s3)
     | .err => .err | .panic => .panic | .diverge => .diverge | .depth => .depth
 
+def natOfDigits (bs : List UInt8) : Nat := bs.foldl (fun a b => a * 10 + (b.toNat - 48)) 0
+
+/-- Is the double nearest to `n / 10^k` a finite integer?  Rust's `f64::from_str` is correctly rounded (round
+to nearest, ties to even - documented by std, trusted), so this is exact arithmetic: with `e` the binary
+exponent of the result's unit in the last place (at least -1074) and `m` the rounded significand, the double
+is `m * 2^e`. -/
+def roundsToInteger (n k : Nat) : Bool :=
+  if n == 0 then true else
+  let den := 10 ^ k
+  let a := Nat.log2 n
+  let b := Nat.log2 den
+  let ge : Bool := if a ≥ b then n ≥ den * 2 ^ (a - b) else n * 2 ^ (b - a) ≥ den
+  let p : Int := (a : Int) - (b : Int) - (if ge then 0 else 1)
+  let e : Int := max (p - 52) (-1074)
+  let num := if e ≥ 0 then n else n * 2 ^ (-e).toNat
+  let d := if e ≥ 0 then den * 2 ^ e.toNat else den
+  let m0 := num / d
+  let r := num % d
+  let m := if 2 * r > d then m0 + 1 else if 2 * r < d then m0 else (if m0 % 2 == 0 then m0 else m0 + 1)
+  if e ≥ 0 then decide (m * 2 ^ e.toNat < 2 ^ 1024)
+  else m % 2 ^ (-e).toNat == 0
+
+/-- Does the exponent lexeme (a valid decimal), run through `f64` and printed with `Display`, come out without
+a fraction?  `Display for f64` prints an integral double as its digits and any other finite double with a
+`.`; so: no fraction written, or a fraction of zeros (`integralDecimal`), or a fraction so small (or so close
+to one) that the nearest double is an integer - `3.00000000000000000000001`, `0.99999999999999999999999`.
+A lexeme WITHOUT fraction is taken to print as an integer: that fails only beyond 1.8e308 (more than 308
+digits, the double is infinite and prints `inf`), a case left to the evaluation of the lexical token like
+the value of every number lexeme. -/
+def exponentPrintsIntegral (bs : List UInt8) : Bool :=
+  integralDecimal bs ||
+    (let body := match bs with
+      | 45 :: r => r
+      | r => r
+     let ip := body.takeWhile isDigitB
+     match body.dropWhile isDigitB with
+     | 46 :: fr => roundsToInteger (natOfDigits (ip ++ fr)) fr.length
+     | _ => false)
+
 /-- The final `number.parse::<f64>()` of `"{decimal}{exp}"` succeeds iff the exponent prints as an
 integer and no second sign follows an explicit one. -/
 def exponentOk (sign ex : List UInt8) : Bool :=
-  integralDecimal ex && !(!sign.isEmpty && ex.head? == some 45)
+  exponentPrintsIntegral ex && !(!sign.isEmpty && ex.head? == some 45)
 
 def mkNum (dec : List UInt8) (exp : Option (List UInt8 × List UInt8)) (unit : Option (List Char)) : Val :=
   let txt := match exp with
